@@ -1229,3 +1229,42 @@ mod tests {
         }
     }
 }
+
+#[cfg(litep2p_verif)]
+impl<S: AsyncRead + AsyncWrite + Unpin> NoiseSocket<S> {
+    /// Read-only projection of the read/write cursors (verification harness only).
+    pub fn verif_state(&self) -> crate::verif::noise::NoiseSocketState {
+        let (read_state, max_read, pending) = match &self.read_state {
+            ReadState::ReadData { max_read } => (0u8, *max_read, None),
+            ReadState::ReadFrameLen => (1u8, 0usize, None),
+            ReadState::ProcessNextFrame {
+                pending,
+                offset,
+                size,
+                frame_size,
+            } => (
+                2u8,
+                0usize,
+                pending.as_ref().map(|_| (*offset, *size, *frame_size)),
+            ),
+        };
+
+        crate::verif::noise::NoiseSocketState {
+            read_state,
+            max_read,
+            nread: self.nread,
+            offset: self.offset,
+            current_frame_size: self.current_frame_size,
+            pending,
+            writing: match self.write_state {
+                WriteState::Idle => None,
+                WriteState::Writing {
+                    offset,
+                    encrypted_len,
+                } => Some((offset, encrypted_len)),
+            },
+            read_buffer_len: self.read_buffer.len(),
+            encrypt_buffer_len: self.encrypt_buffer.len(),
+        }
+    }
+}
